@@ -37,6 +37,8 @@ const (
 	zzKFunc
 	zzKEmptyList
 	zzKNestedList
+	zzKTrace    // what except binds as e.trace: a Go []string
+	zzKErrorObj // what except binds as e: a map holding strings, a []string trace and arbitrary data
 	zzKinds
 )
 
@@ -64,6 +66,11 @@ func zzValue(label string, kind int) interface{} {
 		return []interface{}{}
 	case zzKNestedList:
 		return []interface{}{[]interface{}{zz.Float64(label + "_n0")}}
+	case zzKTrace:
+		return []string{"raise(\"E\") (t:1)"}
+	case zzKErrorObj:
+		return map[interface{}]interface{}{"type": "E", "error": "ECAL error in t: E () (Line:1 Pos:1)", "detail": "", "data": nil,
+			"line": 1.0, "pos": 1.0, "source": "t", "trace": []string{"raise(\"E\") (t:1)"}}
 	}
 	return nil
 }
